@@ -193,6 +193,8 @@ pub struct Tracee {
     pub exit_status: Option<i32>,
     pub killed_by: Option<i32>,
     pub output: Option<Vec<Obs>>,
+    /// the traced process is a descendant of `child` (followed through setup-time forks)
+    pub followed: bool,
 }
 
 #[derive(Debug)]
@@ -233,12 +235,14 @@ impl Tracee {
         }
         let child = cmd.spawn().map_err(|e| Mach(format!("spawn traced worker: {}", e)))?;
         let pid = child.id() as i32;
-        let mut t = Tracee { pid, child, in_syscall: false, finished: false, exit_status: None, killed_by: None, output: None };
+        let mut t = Tracee { pid, child, in_syscall: false, finished: false, exit_status: None, killed_by: None, output: None, followed: false };
         // exec stop (SIGTRAP)
         let mut status = 0;
         let r = unsafe { libc::waitpid(pid, &mut status, libc::__WALL) };
         if r != pid || !libc::WIFSTOPPED(status) { return mach(format!("traced worker did not stop at exec (status {:x})", status)); }
-        if ptrace(libc::PTRACE_SETOPTIONS, pid, 0, (PTRACE_O_TRACESYSGOOD | PTRACE_O_EXITKILL) as usize) != 0 { return mach("PTRACE_SETOPTIONS failed"); }
+        // a worker that moves itself into fresh namespaces forks twice during its setup: follow it to the last child
+        let follow: i64 = if spec.setup.userns { libc::PTRACE_O_TRACEFORK as i64 } else { 0 };
+        if ptrace(libc::PTRACE_SETOPTIONS, pid, 0, (PTRACE_O_TRACESYSGOOD | PTRACE_O_EXITKILL | follow) as usize) != 0 { return mach("PTRACE_SETOPTIONS failed"); }
         // free-run to the BEGIN marker
         t.cont_until_marker()?;
         Ok(t)
@@ -256,6 +260,20 @@ impl Tracee {
             if libc::WIFSIGNALED(status) { self.finished = true; self.killed_by = Some(libc::WTERMSIG(status)); return Ok(false); }
             if libc::WIFSTOPPED(status) {
                 let s = libc::WSTOPSIG(status);
+                if (status >> 8) == (libc::SIGTRAP | (libc::PTRACE_EVENT_FORK << 8)) {
+                    // setup-time fork of a namespace-entering worker: let the parent run free (it only waits), trace the child
+                    let mut newpid: libc::c_ulong = 0;
+                    if ptrace(libc::PTRACE_GETEVENTMSG, self.pid, 0, &mut newpid as *mut libc::c_ulong as usize) != 0 { return mach("PTRACE_GETEVENTMSG failed"); }
+                    let newpid = newpid as i32;
+                    let mut st2 = 0;
+                    let r2 = unsafe { libc::waitpid(newpid, &mut st2, libc::__WALL) };
+                    if r2 != newpid || !libc::WIFSTOPPED(st2) { return mach(format!("forked worker {} did not stop for its tracer (status {:x})", newpid, st2)); }
+                    if ptrace(libc::PTRACE_DETACH, self.pid, 0, 0) != 0 { return mach("PTRACE_DETACH of the forking parent failed"); }
+                    self.pid = newpid;
+                    self.followed = true;
+                    sig = 0;
+                    continue;
+                }
                 if s == libc::SIGSTOP { return Ok(true); }
                 if s == (libc::SIGTRAP | 0x80) { sig = 0; continue; }
                 sig = s as usize;
@@ -399,7 +417,7 @@ impl Tracee {
         }
         let mut s = String::new();
         if let Some(mut so) = self.child.stdout.take() { let _ = so.read_to_string(&mut s); }
-        let _ = self.child.try_wait();
+        if self.followed { let _ = self.child.wait(); } else { let _ = self.child.try_wait(); }
         if let Some(line) = s.lines().last() {
             if let Ok(r) = serde_json::from_str::<Response>(line) { self.output = Some(r.obs); }
         }
@@ -410,6 +428,6 @@ impl Tracee {
 impl Drop for Tracee {
     fn drop(&mut self) {
         if !self.finished { self.kill(); }
-        let _ = self.child.try_wait();
+        if self.followed { let _ = self.child.wait(); } else { let _ = self.child.try_wait(); }
     }
 }
